@@ -14,7 +14,7 @@ from __future__ import annotations
 import ast
 
 from ..cfg import ENTRY, EXIT, header_parts
-from ..flow import Defs, inline_predicates, iterations, nnf, reordered
+from ..flow import Defs, all_merges, inline_predicates, iterations, nnf, reordered
 from ..loader import FuncInfo, dotted, norm, walk_no_nested
 from ..report import Ctx
 from ..selftest import Mutant
@@ -201,13 +201,34 @@ def rule_outputs(ctx: Ctx) -> None:
     ctx.tri("5-outputs", ua, pair[0] if pair else ua.node, bool(pair), False, "arrays and picked outputs are paired position by position", "", "pairing of arrays and outputs not recognised", key="pair-arrays")
 
 
+def rule_inputs_over_defaults(ctx: Ctx) -> None:
+    """Wherever the map machinery merges defaults with supplied inputs, the supplied value wins (shapes, kwargs and runs
+    must all see the same value for an argument)."""
+    P = ctx.prog
+    n = 0
+    for m in ("pipefunc.map._shapes", "pipefunc.map._run", "pipefunc.map._prepare", "pipefunc.map._run_info", "pipefunc.map.adaptive", "pipefunc.map.xarray", "pipefunc.map._load"):
+        for fn in P.functions_in(m):
+            for node, ops in all_merges(fn.node):
+                kinds = ["defaults" if "defaults" in norm(o) and "inputs" not in norm(o) else ("inputs" if "inputs" in norm(o) and "defaults" not in norm(o) else "?") for o in ops]
+                if "defaults" not in kinds or "inputs" not in kinds:
+                    continue
+                if any((isinstance(o, ast.Call) and dotted(o.func) in ("set", "frozenset")) or norm(o).endswith(".keys()") or isinstance(o, (ast.Set, ast.SetComp)) for o in ops):
+                    continue  # a union of name sets: order is irrelevant
+                n += 1
+                ok = kinds.index("defaults") < len(kinds) - 1 - kinds[::-1].index("inputs")
+                ctx.add("3-whole-arrays", fn, node, ok, "supplied inputs override defaults" if ok else
+                        f"`{norm(node)[:60]}` lets a DEFAULT override the supplied input: the shape/value used here differs from the array the function is called with (a longer override is truncated, a shorter one raises IndexError)", key=f"inputs-over-defaults {fn.name}")
+    ctx.floor("3-whole-arrays.merges", n, 1)
+
+
 def check(ctx: Ctx) -> None:
-    for rule in (rule_rank_domain, rule_foreign_key, rule_whole_arrays, rule_topological, rule_outputs):
+    for rule in (rule_inputs_over_defaults, rule_rank_domain, rule_foreign_key, rule_whole_arrays, rule_topological, rule_outputs):
         ctx.run(rule)
 
 
 R, M, S, B = "pipefunc/map/_run.py", "pipefunc/_pipeline/_mapspec.py", "pipefunc/map/_shapes.py", "pipefunc/map/_storage_array/_base.py"
 MUTANTS = [
+    Mutant("defaults-override-inputs-in-shapes", S, "    inputs_with_defaults = pipeline.defaults | inputs\n", "    inputs_with_defaults = inputs | pipeline.defaults\n", ("C01.3-whole-arrays",), why="round-2 seed C01/4"),
     Mutant("select-kwargs-full-shape", R, "    input_keys = func.mapspec.input_keys(external_shape, index)\n", "    input_keys = func.mapspec.input_keys(shape, index)\n", ("C01.1-rank-domain",)),
     Mutant("set-output-internal-for-external", R, "    external_shape = external_shape_from_mask(shape, shape_mask)\n    internal_shape = internal_shape_from_mask(shape, shape_mask)\n    external_index", "    external_shape = internal_shape_from_mask(shape, shape_mask)\n    internal_shape = internal_shape_from_mask(shape, shape_mask)\n    external_index", ("C01.1-rank-domain",)),
     Mutant("flat-index-swapped-operands", R, "    full_index = select_by_mask(shape_mask, external_index, internal_index)\n", "    full_index = select_by_mask(shape_mask, internal_index, external_index)\n", ("C01.1-rank-domain",)),
